@@ -3,6 +3,7 @@
 // collects statistics for the evidence file, writes shrunk failures as replay files.
 #include <rapidcheck.h>
 #include "qsx.hpp"
+#include "qsx_io.hpp"
 #include <fcntl.h>
 #include <signal.h>
 #include <sys/time.h>
@@ -355,6 +356,34 @@ int main(int argc, char **argv) {
     std::string a = argv[i];
     if (a.rfind("--", 0) == 0 && i + 1 < argc) { opt[a.substr(2)] = argv[i + 1]; i++; }
     else pos.push_back(a);
+  }
+  if (mode == "emit-corpus") {
+    // seed corpus for the reader fuzzers: small valid files from the independent emitters (first byte =
+    // the selector byte the fuzz targets consume)
+    if (pos.size() < 2) return usage();
+    std::string dir = pos[0], target = pos[1];
+    long n = opt.count("n") ? atol(opt["n"].c_str()) : 24;
+    uint64_t x = 88172645463325252ull + (uint64_t)(opt.count("seed") ? atol(opt["seed"].c_str()) : 1) * 2654435761ull;
+    sut_global_init();
+    for (long k = 0; k < n; k++) {
+      std::vector<uint32_t> tape;
+      for (int i = 0; i < 400; i++) { x ^= x << 13; x ^= x >> 7; x ^= x << 17; tape.push_back((uint32_t)(x >> 16)); }
+      Tape t(tape);
+      std::string text;
+      if (target == "bas") {
+        static const char *bas[] = {"NAME  t\n XU x c1\n XL y c2\nENDATA\n", "NAME t\n LL x\n UL y\nENDATA\n", "NAME\nENDATA\n",
+                                    "NAME b\n XU x1 c1\n XU x3 c2\n UL x2\nENDATA\n", "NAME b\n XL a r1\n XL b r3\n LL c\nENDATA\n", "NAME b\n XU p lim\nENDATA\n"};
+        text = std::string(1, (char)('0' + k % 7)) + bas[k % 6];
+      } else {
+        Model m;
+        bool mps = target == "mps" || (target == "lpgz" && (k & 1));
+        gen_file_model(t, m, mps, true, 4, 4, (int)(k % 3));
+        EmitStats st;
+        text = std::string(1, (char)('0' + (k & 1))) + (mps ? emit_mps(t, m, st) : emit_lp(t, m, st));
+      }
+      write_file(dir + "/seed" + std::to_string(k), text);
+    }
+    return 0;
   }
   if (mode == "list") {
     for (auto p : all_properties()) printf("%s %s\n", p->id, p->variant);
